@@ -86,6 +86,12 @@ class Ctx:
         self.coverage["trusted_base"] = list(self.registry.get("trusted_base", [])) + entry.get("trusted_extra", [])
         self.notes["theorems"] = theorems
         self.notes["partial"] = entry.get("partial", [])
+        # translators: regenerate the generated Lean tables from the live sources / findings
+        try:
+            from . import gen_tables
+            self.notes["generated_tables_changed"] = gen_tables.regenerate_all()
+        except Exception as e:  # noqa
+            self.broken.append({"kind": "table generation", "detail": repr(e)})
         ok, out = core.lake_build()
         if not ok:
             self.broken.append({"kind": "lake build", "detail": out[-3000:]})
